@@ -789,6 +789,27 @@ func run(c *lib.Ctx) {
 	// C09_PART=list|precedence|metamorphic restricts a development run to one
 	// oracle (the registered command never sets it).
 	part := os.Getenv("C09_PART")
+	// The documented order is a property of the process, not of one load: first
+	// let a number of loads FAIL on misspelt directive names (every registered
+	// name with its last two letters swapped, with a letter dropped, and with a
+	// letter doubled), then check the order. A load that fails must not have
+	// changed the order in which later loads execute their directives.
+	typos := 0
+	for _, d := range casket.ValidDirectives("http") {
+		if len(d) < 3 {
+			continue
+		}
+		for _, t := range []string{d[:len(d)-2] + d[len(d)-1:] + d[len(d)-2:len(d)-1], d[:len(d)-1], d + d[len(d)-1:]} {
+			if t == d {
+				continue
+			}
+			in := casket.CasketfileInput{Contents: []byte("127.0.0.1:1 {\n " + t + " x\n}\n"), Filepath: "Casketfile-typo", ServerTypeName: "http"}
+			if err := casket.ValidateAndExecuteDirectives(in, nil, true); err != nil {
+				typos++
+			}
+		}
+	}
+	c.Count("failed_loads_with_misspelt_directives_before_order_checks", int64(typos))
 	if part == "" || part == "list" {
 		checkList(c)
 	}
